@@ -269,8 +269,8 @@ func c14PairCB(prefix string, mt MemMapType, cbMode bool) (*Session, *Session, *
 	scfg.listenCallback = lcb
 	chC := c12Start(c12Config(prefix, mt), ca, true)
 	chS := c12Start(scfg, cb, false)
-	rc, okc := c12Wait(chC, 3*time.Second)
-	rs, oks := c12Wait(chS, 3*time.Second)
+	rc, okc := c12Wait(chC, 8*time.Second)
+	rs, oks := c12Wait(chS, 8*time.Second)
 	if !okc || !oks || rc.err != nil || rs.err != nil {
 		c12CloseSession(rc.sess)
 		c12CloseSession(rs.sess)
@@ -379,7 +379,7 @@ func (c *c14Run) e2e(f []string) string {
 		for _, b := range cbs {
 			select {
 			case <-b.entered:
-			case <-time.After(2 * time.Second):
+			case <-time.After(6 * time.Second):
 				c.setFail("e2e-setup", "OnData was not called for a stream that received data")
 			}
 		}
@@ -411,7 +411,7 @@ func (c *c14Run) e2e(f []string) string {
 	}
 	// S (C14): the surviving session becomes closed
 	okClosed := false
-	for i := 0; i < 2000; i++ {
+	for t1 := time.Now(); time.Since(t1) < 6*time.Second; {
 		if survivor.IsClosed() {
 			okClosed = true
 			break
@@ -419,7 +419,7 @@ func (c *c14Run) e2e(f []string) string {
 		time.Sleep(time.Millisecond)
 	}
 	if !okClosed {
-		c.setFail("survivor-stays-open", fmt.Sprintf("%s: 2 s after the event the other session is still not closed", mode))
+		c.setFail("survivor-stays-open", fmt.Sprintf("%s: 6 s after the event the other session is still not closed", mode))
 	}
 	// S (C14): pending calls fail, nothing hangs, nothing panics
 	for _, p := range pend {
@@ -430,7 +430,7 @@ func (c *c14Run) e2e(f []string) string {
 			} else if err == nil {
 				c.setFail("pending-call-succeeds", fmt.Sprintf("%s: %s returned nil although no data could arrive", mode, p.name))
 			}
-		case <-time.After(2 * time.Second):
+		case <-time.After(6 * time.Second):
 			c.setFail("pending-call-hangs", fmt.Sprintf("%s: %s is still blocked %v after the event", mode, p.name, time.Since(t0)))
 		}
 	}
@@ -443,7 +443,7 @@ func (c *c14Run) e2e(f []string) string {
 				if err == nil {
 					c.setFail("pending-call-succeeds", fmt.Sprintf("%s: the read inside OnData of server stream %d returned nil although no data could arrive", mode, i))
 				}
-			case <-time.After(3 * time.Second):
+			case <-time.After(6 * time.Second):
 				c.setFail("callback-read-hangs", fmt.Sprintf("%s: the read pending inside OnData of server stream %d is still blocked %v after the session died", mode, i, time.Since(t0)))
 				b.st.safeCloseNotify() // release it by hand: the process-wide event loop would stay stuck for every later case
 			}
@@ -452,13 +452,13 @@ func (c *c14Run) e2e(f []string) string {
 		srv.dispatcher.post(func() { close(ran) })
 		select {
 		case <-ran:
-		case <-time.After(4 * time.Second):
-			c.setFail("event-loop-stuck", fmt.Sprintf("%s: work posted to the event loop has not run 4 s after the session died", mode))
+		case <-time.After(8 * time.Second):
+			c.setFail("event-loop-stuck", fmt.Sprintf("%s: work posted to the event loop has not run 8 s after the session died", mode))
 		}
 		for i, b := range cbs {
-			ok := c19WaitFor(3*time.Second, func() bool { return atomic.LoadInt32(&b.local)+atomic.LoadInt32(&b.remote) >= 1 })
+			ok := c19WaitFor(6*time.Second, func() bool { return atomic.LoadInt32(&b.local)+atomic.LoadInt32(&b.remote) >= 1 })
 			if !ok {
-				c.setFail("no-close-callback", fmt.Sprintf("%s: server stream %d (callback mode) got no close callback within 3 s of the session's death", mode, i))
+				c.setFail("no-close-callback", fmt.Sprintf("%s: server stream %d (callback mode) got no close callback within 6 s of the session's death", mode, i))
 			}
 		}
 	}
@@ -476,7 +476,7 @@ func (c *c14Run) e2e(f []string) string {
 			} else if err == nil && survivor == cli && okClosed {
 				c.setFail("late-call-succeeds", fmt.Sprintf("%s: %s returned nil on a closed session", mode, call.name))
 			}
-		case <-time.After(2 * time.Second):
+		case <-time.After(6 * time.Second):
 			c.setFail("late-call-hangs", fmt.Sprintf("%s: %s hangs", mode, call.name))
 		}
 	}
@@ -494,7 +494,7 @@ func (c *c14Run) e2e(f []string) string {
 	c12CloseSession(cli)
 	c12CloseSession(srv)
 	// S (C14): once both ends are closed nothing the sessions created is left
-	for i := 0; i < 500; i++ {
+	for t1 := time.Now(); time.Since(t1) < 6*time.Second; {
 		runtime.GC()
 		if c12CountFds() <= fd0 && c12CountMaps(prefix) <= maps0 && c12CountFiles(prefix) == 0 {
 			break
